@@ -4,6 +4,7 @@ import (
 	"errors"
 	"fmt"
 	"strings"
+	"sync"
 	"testing"
 	"testing/synctest"
 	"time"
@@ -30,7 +31,7 @@ type C06Scenario struct {
 
 var c06OpKinds = []string{
 	"append_next", "append_next", "append_next", "append_next", "append_gap", "append_fill", "sync",
-	"delete_prefix", "delete_prefix", "delete_suffix", "delete_whole", "restart_new", "restart_stopstart",
+	"delete_prefix", "delete_prefix", "delete_suffix", "delete_whole", "restart_new", "restart_stopstart", "stop_during_sync",
 }
 
 func genC06(t *rapid.T) C06Scenario {
@@ -183,6 +184,59 @@ func c06RunHistory(s C06Scenario, e *storeEnv, res *Result, faults bool) (hist *
 				}
 			}
 			sinceSync = false
+		case "stop_during_sync":
+			// Stop arrives while a Sync request is in flight and the flush loop is still busy with an
+			// Append: whichever of the two the loop serves first, everything appended before must survive.
+			hs := resolveAppend(e.m, StoreOp{Op: "append_next", N: op.N}, s.Base)
+			if hs == nil || faults {
+				continue
+			}
+			gate := make(chan struct{})
+			var once sync.Once
+			parked := make(chan struct{})
+			store.VerifSetYield(func(p string) {
+				if p == "flush:advanced" {
+					once.Do(func() {
+						close(parked)
+						<-gate
+					})
+				}
+			})
+			if err := e.st.Append(ctx, e.chain.Range(hs[0], hs[len(hs)-1]+1)...); err != nil {
+				store.VerifSetYield(nil)
+				fail("%s: Append failed: %v", tag, err)
+				return
+			}
+			e.m.appendBatch(hs)
+			<-parked
+			syncDone := make(chan error, 1)
+			stopDone := make(chan error, 1)
+			go func() { syncDone <- e.st.Sync(ctx) }()
+			go func() {
+				c2, cn := vctx(time.Hour)
+				defer cn()
+				stopDone <- e.st.Stop(c2)
+			}()
+			synctest.Wait()
+			store.VerifSetYield(nil)
+			close(gate)
+			if err := <-stopDone; err != nil {
+				fail("%s: Stop failed: %v", tag, err)
+				return
+			}
+			<-syncDone
+			labels["stop_during_sync"] = true
+			e.st = nil
+			if err := e.open(ctx); err != nil {
+				fail("%s: reopening after Stop failed: %v", tag, err)
+				return
+			}
+			sinceSync = false
+			synctest.Wait()
+			if v := e.checkStore(tag + " (restart after Stop raced a Sync)"); v != "" {
+				fail("%s", v)
+				return
+			}
 		case "restart_new", "restart_stopstart":
 			if sinceSync {
 				labels["stop_right_after_append"] = true
@@ -370,6 +424,10 @@ func runC06(t *testing.T, s C06Scenario) (res Result) {
 		res.NonTrivial = insideDelete || betweenFlushes
 		if insideDelete {
 			res.label("crash_point_inside_delete")
+		}
+		if labels["stop_during_sync"] {
+			res.label("stop_raced_a_sync")
+			res.NonTrivial = true
 		}
 		if betweenFlushes {
 			res.label("crash_between_flushes_with_acked_unflushed")
